@@ -71,3 +71,25 @@ func VerifC08_budget() {
 	_, _, _ = s.p.clusterInvoke(s.srv, s.cluster, s.req, nil)
 	s.checkC08()
 }
+
+// VerifC08_crossTwice: the cross-retry target when more than one cross attempt is allowed (narrow:
+// CrossRetry fixed to its upper bound CR >= 2, RetryMax <= RM, one backend per sub-cluster with
+// symbolic availability, fault kinds {ok, connect error}, body-less GET). Every attempt of the cross
+// stage - not only the first - must go to a sub-cluster other than the request's assigned one.
+func VerifC08_crossTwice() {
+	s := buildC07(1, 1, vrt.Choose("blackhole", 1+vrt.Param("BH", 0)) == 1, false, false)
+	vrt.Assume(s.cr == vrt.Param("CR", 2))
+	s.kinds, s.kindsRest = vrt.Param("K", 2), vrt.Param("K", 2)
+	s.requestC07("GET", 0)
+	_, _, _ = s.p.clusterInvoke(s.srv, s.cluster, s.req, nil)
+	s.checkC08()
+	ncross := 0
+	for i := 0; i < s.n && i < maxCallsC07; i++ {
+		if s.cross[i] || i > s.rm {
+			ncross++
+		}
+	}
+	if ncross >= 2 {
+		vrt.Cover("C08/second-cross-attempt-seen")
+	}
+}
